@@ -288,7 +288,7 @@ def run_one(c, w, p):
     exp = expected_parts(c)
     labels = ["v1" if c["v1"] else "v5", "hex:" + c.get("hexstyle", "plain")]
     if c.get("hexstyle") == "spaced" and code != 0 and len(w.completed) == n_completed and \
-            w.sign_st is None and not w.apdus(mark):
+            not w.apdus(mark):
         # a manager may refuse this spelling outright (the docs speak of hex strings)
         return Out(labels + ["spaced-hex-refused"], False)
     if c.get("related"):
